@@ -36,6 +36,11 @@ CONSTANTS
   NDimProps = 0
   NDimShapes = 0
   NSnips = 0
+  NCont = 0
+  NBlk = 0
+  NHost = 0
+  NestMode = 0
+  NestWitness = {}
   NLex = 0
   MaxLine = %(maxline)d
   MinOut = %(minout)d
